@@ -116,7 +116,7 @@ func runC15(c c15Case) (*Violation, string) {
 	}
 	for _, h := range hsl {
 		if !rig.W.WaitStarted(h.p.Tok, 3*time.Second) {
-			return nil, "handler did not start"
+			return violf("handler-did-not-start", "%s handler %s did not start within 3s on a healthy connection", h.Kind, h.p.Tok), ""
 		}
 		if h.Kind == "reverse" {
 			deadline := time.Now().Add(2 * time.Second)
